@@ -31,6 +31,6 @@ for m in sorted(os.listdir(stage)):
     if ok:
         dst = '/verif/seeded/%s-%s' % (a.prop, m)
         os.makedirs(dst, exist_ok=True)
-        for f in ('patch.diff', 'demo.cpp', 'README.txt'):
+        for f in ('patch.diff', 'demo.cpp', 'README.txt', 'demo_args'):
             if os.path.exists(os.path.join(d, f)): shutil.copy(os.path.join(d, f), dst)
         json.dump(meta, open(os.path.join(dst, 'meta.json'), 'w'), indent=1)
